@@ -54,6 +54,11 @@ def check_exit_propagates(ctx: Context, rep, rule: str,
 
 
 # ---------------------------------------------------------------------------
+ENV_METHODS = {"resolve", "absolute", "expanduser", "exists", "is_file",
+               "is_dir", "stat", "lstat", "iterdir", "is_symlink", "readlink",
+               "cwd", "home", "samefile"}
+
+
 def reads_files(ctx: Context, fn: FunctionInfo, depth: int = 3,
                 seen: set | None = None) -> bool:
     seen = seen if seen is not None else set()
@@ -62,6 +67,16 @@ def reads_files(ctx: Context, fn: FunctionInfo, depth: int = 3,
     seen.add(fn.fq)
     for c in fn.calls():
         if "FS_READ" in ctx.effects(fn, c):
+            return True
+        # ... or asks the file system / the process environment (the answer
+        # changes when the working directory, a link or the tree changes)
+        if isinstance(c.func, ast.Attribute) and c.func.attr in ENV_METHODS \
+                and not c.args:
+            return True
+        if ctx.is_call(fn, c, "os.getcwd", "os.path.abspath",
+                       "os.path.realpath", "os.path.exists", "os.path.isfile",
+                       "os.stat", "os.listdir", "os.scandir", "pathlib.Path.cwd",
+                       "pathlib.Path.home", "os.path.expanduser"):
             return True
         if depth > 0:
             for t in ctx.internal_targets(fn, c):
@@ -96,6 +111,57 @@ def check_no_memo(ctx: Context, rep, rule: str) -> None:
                if bad else f"@{decos[0]} (pure)",
                message="results derived from dataset files must be "
                "recomputed on every call")
+    # hand-made memoisation: a container that outlives the call (module
+    # global, attribute of self / cls) is stored into under a key and a value
+    # looked up in the same container is returned, in a function that reads
+    # files or asks the environment
+    for fn in ctx.repo.all_functions():
+        if not fn.module.name.startswith("sedpack.io") or isinstance(
+                fn.node, ast.Lambda):
+            continue
+        stores: dict[str, ast.AST] = {}
+        for x in fn.body_nodes():
+            if isinstance(x, ast.Assign):
+                for t in x.targets:
+                    if isinstance(t, ast.Subscript):
+                        d = dotted(t.value)
+                        if d and (d.startswith(("self.", "cls.")) or (
+                                "." not in d and d in fn.module.globals)):
+                            stores[d] = x
+            if isinstance(x, ast.Call) and isinstance(x.func, ast.Attribute) \
+                    and x.func.attr == "setdefault":
+                d = dotted(x.func.value)
+                if d and (d.startswith(("self.", "cls.")) or (
+                        "." not in d and d in fn.module.globals)):
+                    stores[d] = x
+        if not stores:
+            continue
+        hits = []
+        for r in fn.body_nodes():
+            if not isinstance(r, ast.Return) or r.value is None:
+                continue
+            from sa import norm as _norm
+            ev = _norm.expand(fn, r.value)
+            for y in ast.walk(ev):
+                d = None
+                if isinstance(y, ast.Subscript):
+                    d = dotted(y.value)
+                elif isinstance(y, ast.Call) and isinstance(
+                        y.func, ast.Attribute) and y.func.attr in (
+                            "get", "setdefault"):
+                    d = dotted(y.func.value)
+                if d in stores:
+                    hits.append((r, d))
+        if not hits:
+            continue
+        n += 1
+        bad = reads_files(ctx, fn)
+        rep.ob(rule, not bad, loc=fn.loc(hits[0][0]), where=fn.qualname,
+               construct=f"hand-made cache `{hits[0][1]}`: stored under a key "
+               f"and returned from the same container",
+               message="results derived from dataset files must be "
+               "recomputed on every call (hand-made memoisation in a function "
+               "that reads files / asks the environment)")
     rep.info(rule, f"{n} memoised function(s) inspected")
 
 
@@ -306,6 +372,9 @@ def lower_bound(fn: FunctionInfo, e: ast.AST, depth: int = 0):
         return e.value
     if isinstance(e, ast.Name):
         return POSITIVE_PARAMS.get(e.id)
+    if isinstance(e, ast.Attribute) and isinstance(e.value, ast.Name) and \
+            e.value.id == "self":
+        return POSITIVE_PARAMS.get(e.attr.lstrip("_"))   # field of the param
     if isinstance(e, ast.Call) and isinstance(e.func, ast.Name) and \
             not e.keywords and e.args:
         lbs = [lower_bound(fn, a, depth + 1) for a in e.args]
@@ -536,3 +605,84 @@ def check_exit_publishes(ctx: Context, rep, rule: str) -> None:
                    path=cfg.describe_path(cfg.path_to(cfg.exit,
                                                       avoiding=blockers))
                    if skipped and blockers else "")
+
+
+# ---------------------------------------------------------------------------
+def share_rules(ctx: Context, rep, module_name: str,
+                mapping: dict[str, str]) -> None:
+    """Run another property's rule module once (cached on the context) and
+    re-emit the obligations of the selected rules under this property's rule
+    names: the same structural check, claimed as a necessary condition of a
+    second property. Discharged obligations are copied as such."""
+    import importlib
+    from sa.report import Report
+    cache = ctx.__dict__.setdefault("_shared_reports", {})
+    sub = cache.get(module_name)
+    if sub is None:
+        mod = importlib.import_module(f"sa.rules.{module_name}")
+        sub = Report(module_name.upper(), "selftest")
+        try:
+            mod.run(ctx, sub)
+        except AnalysisError as e:
+            sub.notes.append(f"analysis error: {e}")
+            sub.__dict__["_error"] = str(e)
+        cache[module_name] = sub
+    msgs = {(v.rule, v.loc, v.construct): v for v in sub.violations}
+    for src, dst in mapping.items():
+        if src in sub.explanation:
+            rep.rule(dst, f"(same check as {src}) " + sub.explanation[src])
+        n = 0
+        for inst in sub.instances:
+            if inst["rule"] != src:
+                continue
+            n += 1
+            v = msgs.get((src, inst["loc"], inst["construct"]))
+            ok = inst["status"] == "discharged"
+            rep.ob(dst, ok, loc=inst["loc"], where=inst["where"],
+                   construct=inst["construct"],
+                   message=v.message if v is not None else
+                   f"obligation of {src}", path=v.path if v is not None else "")
+        if n == 0:
+            err = sub.__dict__.get("_error")
+            raise AnalysisError(
+                f"{dst}: shared rule {src} produced no obligation" +
+                (f" ({err})" if err else ""))
+
+
+# ---------------------------------------------------------------------------
+def check_bounded_buffers(ctx: Context, rep, rule: str) -> None:
+    """Read-ahead outside the lazy pool's own protocol is bounded: a queue or
+    deque created in the iteration modules has a capacity whose lower bound
+    is >= 1 (maxsize <= 0 means unbounded for queue / asyncio queues)."""
+    rep.rule(
+        rule,
+        "every queue.Queue / asyncio.Queue / collections.deque constructed "
+        "in dataset_iteration.py and itertools.py has a capacity argument "
+        "with interval lower bound >= 1 (file_parallelism >= 1); none exists "
+        "on the unchanged tree (the zero is part of the claim: a positive "
+        "example is kept in the self-tests)")
+    mods = ("sedpack.io.dataset_iteration", "sedpack.io.itertools.itertools")
+    n = 0
+    for fn in ctx.repo.all_functions():
+        if fn.module.name not in mods:
+            continue
+        for c in fn.calls():
+            nm = (dotted(c.func) or "").rsplit(".", 1)[-1]
+            names = ctx.names(fn, c)
+            is_q = nm in ("Queue", "LifoQueue", "PriorityQueue", "SimpleQueue",
+                          "deque") and any(
+                              x.startswith(("queue.", "asyncio.", "collections.",
+                                            "multiprocessing."))
+                              for x in names)
+            if not is_q:
+                continue
+            n += 1
+            size = ctx.arg(c, 1 if nm == "deque" else 0,
+                           "maxlen" if nm == "deque" else "maxsize")
+            lb = lower_bound(fn, size) if size is not None else None
+            rep.ob(rule, lb is not None and lb >= 1, loc=fn.loc(c),
+                   where=fn.qualname, construct=short(c, 70),
+                   message="a hand-over buffer on the read path needs a "
+                   f"positive capacity (lower bound here: {lb}; 0 or less "
+                   "means unbounded read-ahead)")
+    rep.info(rule, f"{n} buffer construction(s) in the iteration modules")
